@@ -51,7 +51,7 @@ theorem get_set_ne (s : Store) {x y : String} (v : Val) (h : y ≠ x) : (s.set x
 /-! ### the relation -/
 
 theorem Rel_set_both {te : C.TyEnv} {sp sc : Store} (h : Rel te sp sc) {x : String} {t : Ty} (v : Val)
-    (ht : te.lookup x = some t) (hb : t = .bool → ∃ b, v = .bool b) :
+    (ht : te.lookup x = some t) (hb : t.holds v = true) :
     Rel te (sp.set x v) (sc.set x (C.conv t v)) := by
   intro y ty hy pv hpv
   by_cases hyx : y = x
@@ -84,7 +84,7 @@ theorem Rel_cons {te : C.TyEnv} {sp sc : Store} (h : Rel te sp sc) {i : String} 
   · subst hyi
     rw [lookup_cons_eq] at hy; cases hy
     rw [hp] at hpv; cases hpv
-    exact ⟨hc, fun h => by cases h⟩
+    exact ⟨hc, rfl⟩
   · rw [lookup_cons_ne _ _ hyi] at hy
     exact h y ty hy pv hpv
 
@@ -104,6 +104,7 @@ theorem Py_eval_congr (s s' : Store) (e : Expr) (h : ∀ x ∈ e.vars, s.get x =
   induction e with
   | int n => rfl
   | bool b => rfl
+  | str t => rfl
   | var x => simp only [Py.eval, h x (by simp [Expr.vars])]
   | bin op a b iha ihb =>
     simp only [Expr.vars, List.mem_append] at h
@@ -127,12 +128,14 @@ theorem Py_eval_congr (s s' : Store) (e : Expr) (h : ∀ x ∈ e.vars, s.get x =
   | mm k a b iha ihb =>
     simp only [Expr.vars, List.mem_append] at h
     simp only [Py.eval, iha (fun x hx => h x (.inl hx)), ihb (fun x hx => h x (.inr hx))]
+  | toStr a iha => simp only [Expr.vars] at h; simp only [Py.eval, iha h]
 
 theorem C_eval_congr (te : C.TyEnv) (s s' : Store) (e : Expr) (h : ∀ x ∈ e.vars, s.get x = s'.get x) :
     C.eval te s e = C.eval te s' e := by
   induction e with
   | int n => rfl
   | bool b => rfl
+  | str t => rfl
   | var x => simp only [C.eval, h x (by simp [Expr.vars])]
   | bin op a b iha ihb =>
     simp only [Expr.vars, List.mem_append] at h
@@ -156,12 +159,14 @@ theorem C_eval_congr (te : C.TyEnv) (s s' : Store) (e : Expr) (h : ∀ x ∈ e.v
   | mm k a b iha ihb =>
     simp only [Expr.vars, List.mem_append] at h
     simp only [C.eval, iha (fun x hx => h x (.inl hx)), ihb (fun x hx => h x (.inr hx))]
+  | toStr a iha => simp only [Expr.vars] at h; simp only [C.eval, iha h]
 
 theorem nameFree_vars (e : Expr) (h : e.nameFree = true) : e.vars = [] := by
   induction e with
   | var x => simp [Expr.nameFree] at h
   | int n => rfl
   | bool b => rfl
+  | str t => rfl
   | bin op a b iha ihb => simp only [Expr.nameFree, Bool.and_eq_true] at h; simp [Expr.vars, iha h.1, ihb h.2]
   | cmp op a b iha ihb => simp only [Expr.nameFree, Bool.and_eq_true] at h; simp [Expr.vars, iha h.1, ihb h.2]
   | and a b iha ihb => simp only [Expr.nameFree, Bool.and_eq_true] at h; simp [Expr.vars, iha h.1, ihb h.2]
@@ -172,24 +177,26 @@ theorem nameFree_vars (e : Expr) (h : e.nameFree = true) : e.vars = [] := by
     simp only [Expr.nameFree, Bool.and_eq_true] at h; simp [Expr.vars, ihc h.1.1, iha h.1.2, ihb h.2]
   | abs a iha => simp only [Expr.nameFree] at h; simp [Expr.vars, iha h]
   | mm k a b iha ihb => simp only [Expr.nameFree, Bool.and_eq_true] at h; simp [Expr.vars, iha h.1, ihb h.2]
+  | toStr a iha => simp only [Expr.nameFree] at h; simp [Expr.vars, iha h]
 
 theorem wt_vars (te : C.TyEnv) (e : Expr) (h : e.wt te = true) : ∀ x ∈ e.vars, (te.lookup x).isSome = true := by
   induction e with
   | var x => intro y hy; simp only [Expr.vars, List.mem_singleton] at hy; subst hy; exact h
   | int n => intro y hy; simp [Expr.vars] at hy
   | bool b => intro y hy; simp [Expr.vars] at hy
+  | str t => intro y hy; simp [Expr.vars] at hy
   | bin op a b iha ihb =>
     simp only [Expr.wt, Bool.and_eq_true] at h
     intro y hy; simp only [Expr.vars, List.mem_append] at hy
     rcases hy with hy | hy
-    · exact iha h.1 y hy
-    · exact ihb h.2 y hy
+    · exact iha h.1.1 y hy
+    · exact ihb h.1.2 y hy
   | cmp op a b iha ihb =>
     simp only [Expr.wt, Bool.and_eq_true] at h
     intro y hy; simp only [Expr.vars, List.mem_append] at hy
     rcases hy with hy | hy
-    · exact iha h.1 y hy
-    · exact ihb h.2 y hy
+    · exact iha h.1.1.1 y hy
+    · exact ihb h.1.1.2 y hy
   | and a b iha ihb =>
     simp only [Expr.wt, Bool.and_eq_true] at h
     intro y hy; simp only [Expr.vars, List.mem_append] at hy
@@ -203,14 +210,14 @@ theorem wt_vars (te : C.TyEnv) (e : Expr) (h : e.wt te = true) : ∀ x ∈ e.var
     · exact iha h.1.1.1 y hy
     · exact ihb h.1.1.2 y hy
   | neg a iha => simp only [Expr.wt, Bool.and_eq_true] at h; exact iha h.1
-  | not a iha => simp only [Expr.wt] at h; exact iha h
+  | not a iha => simp only [Expr.wt, Bool.and_eq_true] at h; exact iha h.1
   | ite c a b ihc iha ihb =>
     simp only [Expr.wt, Bool.and_eq_true] at h
     intro y hy; simp only [Expr.vars, List.mem_append] at hy
     rcases hy with (hy | hy) | hy
-    · exact ihc h.1.1.1 y hy
-    · exact iha h.1.1.2 y hy
-    · exact ihb h.1.2 y hy
+    · exact ihc h.1.1.1.1 y hy
+    · exact iha h.1.1.1.2 y hy
+    · exact ihb h.1.1.2 y hy
   | abs a iha => simp only [Expr.wt] at h; exact iha h
   | mm k a b iha ihb =>
     simp only [Expr.wt, Bool.and_eq_true] at h
@@ -218,6 +225,7 @@ theorem wt_vars (te : C.TyEnv) (e : Expr) (h : e.wt te = true) : ∀ x ∈ e.var
     rcases hy with hy | hy
     · exact iha h.1.1.1 y hy
     · exact ihb h.1.1.2 y hy
+  | toStr a iha => simp only [Expr.wt, Bool.and_eq_true] at h; exact iha h.1
 
 /-! ### weakening of the type environment -/
 
@@ -228,22 +236,25 @@ theorem wt_sub {te te' : C.TyEnv} (hs : Sub te te') (e : Expr) (h : e.wt te = tr
   induction e with
   | int n => exact ⟨rfl, rfl⟩
   | bool b => exact ⟨rfl, rfl⟩
+  | str t => exact ⟨h, rfl⟩
   | var x =>
     simp only [Expr.wt, Option.isSome_iff_exists] at h
     obtain ⟨t, ht⟩ := h
     simp only [Expr.wt, inferTy, hs x t ht, ht, Option.isSome_some, Option.getD_some, and_self]
   | bin op a b iha ihb =>
     simp only [Expr.wt, Bool.and_eq_true] at h
-    simp only [Expr.wt, inferTy, (iha h.1).1, (ihb h.2).1, Bool.and_self, and_self]
+    have hb : Expr.binTyOk te' op a b = true := by
+      have := h.2; simp only [Expr.binTyOk] at this ⊢; rw [(iha h.1.1).2, (ihb h.1.2).2]; exact this
+    simp only [Expr.wt, inferTy, (iha h.1.1).1, (ihb h.1.2).1, (iha h.1.1).2, (ihb h.1.2).2, hb, Bool.and_self, and_self]
   | cmp op a b iha ihb =>
     simp only [Expr.wt, Bool.and_eq_true] at h
-    simp only [Expr.wt, inferTy, (iha h.1).1, (ihb h.2).1, Bool.and_self, and_self]
+    simp only [Expr.wt, inferTy, (iha h.1.1.1).1, (ihb h.1.1.2).1, (iha h.1.1.1).2, (ihb h.1.1.2).2, h.1.2, h.2, Bool.and_self, and_self]
   | neg a iha =>
     simp only [Expr.wt, Bool.and_eq_true, beq_iff_eq] at h
     simp only [Expr.wt, inferTy, (iha h.1).1, (iha h.1).2, h.2, beq_self_eq_true, Bool.and_self, and_self]
   | not a iha =>
-    simp only [Expr.wt] at h
-    simp only [Expr.wt, inferTy, (iha h).1, and_self]
+    simp only [Expr.wt, Bool.and_eq_true] at h
+    simp only [Expr.wt, inferTy, (iha h.1).1, (iha h.1).2, h.2, Bool.and_self, and_self]
   | and a b iha ihb =>
     simp only [Expr.wt, Bool.and_eq_true, beq_iff_eq] at h
     simp only [Expr.wt, inferTy, (iha h.1.1.1).1, (ihb h.1.1.2).1, (iha h.1.1.1).2, (ihb h.1.1.2).2, h.1.2, h.2,
@@ -254,8 +265,8 @@ theorem wt_sub {te te' : C.TyEnv} (hs : Sub te te') (e : Expr) (h : e.wt te = tr
       beq_self_eq_true, Bool.and_self, and_self]
   | ite c a b ihc iha ihb =>
     simp only [Expr.wt, Bool.and_eq_true, beq_iff_eq] at h
-    simp only [Expr.wt, inferTy, (ihc h.1.1.1).1, (iha h.1.1.2).1, (ihb h.1.2).1, (iha h.1.1.2).2, (ihb h.1.2).2,
-      h.2, beq_self_eq_true, Bool.and_self, and_self]
+    simp only [Expr.wt, inferTy, (ihc h.1.1.1.1).1, (iha h.1.1.1.2).1, (ihb h.1.1.2).1, (iha h.1.1.1.2).2, (ihb h.1.1.2).2,
+      (ihc h.1.1.1.1).2, h.1.2, h.2, beq_self_eq_true, Bool.and_self, and_self]
   | abs a iha =>
     simp only [Expr.wt] at h
     simp only [Expr.wt, inferTy, (iha h).1, and_self]
@@ -263,6 +274,9 @@ theorem wt_sub {te te' : C.TyEnv} (hs : Sub te te') (e : Expr) (h : e.wt te = tr
     simp only [Expr.wt, Bool.and_eq_true, beq_iff_eq] at h
     simp only [Expr.wt, inferTy, (iha h.1.1.1).1, (ihb h.1.1.2).1, (iha h.1.1.1).2, (ihb h.1.1.2).2, h.1.2, h.2,
       beq_self_eq_true, Bool.and_self, and_self]
+  | toStr a iha =>
+    simp only [Expr.wt, Bool.and_eq_true] at h
+    simp only [Expr.wt, inferTy, (iha h.1).1, (iha h.1).2, h.2, Bool.and_self, and_self]
 
 /-- a name-free expression is typed independently of the declarations -/
 theorem wt_nameFree (te te' : C.TyEnv) (e : Expr) (hnf : e.nameFree = true) (h : e.wt te = true) :
@@ -270,23 +284,28 @@ theorem wt_nameFree (te te' : C.TyEnv) (e : Expr) (hnf : e.nameFree = true) (h :
   induction e with
   | int n => exact ⟨rfl, rfl⟩
   | bool b => exact ⟨rfl, rfl⟩
+  | str t => exact ⟨h, rfl⟩
   | var x => simp [Expr.nameFree] at hnf
   | bin op a b iha ihb =>
     simp only [Expr.nameFree, Bool.and_eq_true] at hnf
     simp only [Expr.wt, Bool.and_eq_true] at h
-    simp only [Expr.wt, inferTy, (iha hnf.1 h.1).1, (ihb hnf.2 h.2).1, Bool.and_self, and_self]
+    have hb : Expr.binTyOk te' op a b = true := by
+      have := h.2; simp only [Expr.binTyOk] at this ⊢; rw [(iha hnf.1 h.1.1).2, (ihb hnf.2 h.1.2).2]; exact this
+    simp only [Expr.wt, inferTy, (iha hnf.1 h.1.1).1, (ihb hnf.2 h.1.2).1, (iha hnf.1 h.1.1).2, (ihb hnf.2 h.1.2).2, hb,
+      Bool.and_self, and_self]
   | cmp op a b iha ihb =>
     simp only [Expr.nameFree, Bool.and_eq_true] at hnf
     simp only [Expr.wt, Bool.and_eq_true] at h
-    simp only [Expr.wt, inferTy, (iha hnf.1 h.1).1, (ihb hnf.2 h.2).1, Bool.and_self, and_self]
+    simp only [Expr.wt, inferTy, (iha hnf.1 h.1.1.1).1, (ihb hnf.2 h.1.1.2).1, (iha hnf.1 h.1.1.1).2, (ihb hnf.2 h.1.1.2).2, h.1.2, h.2,
+      Bool.and_self, and_self]
   | neg a iha =>
     simp only [Expr.nameFree] at hnf
     simp only [Expr.wt, Bool.and_eq_true, beq_iff_eq] at h
     simp only [Expr.wt, inferTy, (iha hnf h.1).1, (iha hnf h.1).2, h.2, beq_self_eq_true, Bool.and_self, and_self]
   | not a iha =>
     simp only [Expr.nameFree] at hnf
-    simp only [Expr.wt] at h
-    simp only [Expr.wt, inferTy, (iha hnf h).1, and_self]
+    simp only [Expr.wt, Bool.and_eq_true] at h
+    simp only [Expr.wt, inferTy, (iha hnf h.1).1, (iha hnf h.1).2, h.2, Bool.and_self, and_self]
   | and a b iha ihb =>
     simp only [Expr.nameFree, Bool.and_eq_true] at hnf
     simp only [Expr.wt, Bool.and_eq_true, beq_iff_eq] at h
@@ -300,8 +319,8 @@ theorem wt_nameFree (te te' : C.TyEnv) (e : Expr) (hnf : e.nameFree = true) (h :
   | ite c a b ihc iha ihb =>
     simp only [Expr.nameFree, Bool.and_eq_true] at hnf
     simp only [Expr.wt, Bool.and_eq_true, beq_iff_eq] at h
-    simp only [Expr.wt, inferTy, (ihc hnf.1.1 h.1.1.1).1, (iha hnf.1.2 h.1.1.2).1, (ihb hnf.2 h.1.2).1,
-      (iha hnf.1.2 h.1.1.2).2, (ihb hnf.2 h.1.2).2, h.2, beq_self_eq_true, Bool.and_self, and_self]
+    simp only [Expr.wt, inferTy, (ihc hnf.1.1 h.1.1.1.1).1, (iha hnf.1.2 h.1.1.1.2).1, (ihb hnf.2 h.1.1.2).1,
+      (iha hnf.1.2 h.1.1.1.2).2, (ihb hnf.2 h.1.1.2).2, (ihc hnf.1.1 h.1.1.1.1).2, h.1.2, h.2, beq_self_eq_true, Bool.and_self, and_self]
   | abs a iha =>
     simp only [Expr.nameFree] at hnf
     simp only [Expr.wt] at h
@@ -311,6 +330,17 @@ theorem wt_nameFree (te te' : C.TyEnv) (e : Expr) (hnf : e.nameFree = true) (h :
     simp only [Expr.wt, Bool.and_eq_true, beq_iff_eq] at h
     simp only [Expr.wt, inferTy, (iha hnf.1 h.1.1.1).1, (ihb hnf.2 h.1.1.2).1, (iha hnf.1 h.1.1.1).2, (ihb hnf.2 h.1.1.2).2,
       h.1.2, h.2, beq_self_eq_true, Bool.and_self, and_self]
+  | toStr a iha =>
+    simp only [Expr.nameFree] at hnf
+    simp only [Expr.wt, Bool.and_eq_true] at h
+    simp only [Expr.wt, inferTy, (iha hnf h.1).1, (iha hnf h.1).2, h.2, Bool.and_self, and_self]
+
+theorem okCond_wt {te : C.TyEnv} {c : Expr} (h : c.okCond te = true) : c.wt te = true := by
+  simp only [Expr.okCond, Bool.and_eq_true] at h; exact h.1
+
+theorem okCond_sub {te te' : C.TyEnv} (hs : Sub te te') {c : Expr} (h : c.okCond te = true) : c.okCond te' = true := by
+  simp only [Expr.okCond, Bool.and_eq_true] at h ⊢
+  exact ⟨(wt_sub hs c h.1).1, by rw [(wt_sub hs c h.1).2]; exact h.2⟩
 
 theorem Sub_cons {te : C.TyEnv} {i : String} (t : Ty) (hi : te.lookup i = none) : Sub te ((i, t) :: te) := by
   intro x tx hx
@@ -349,7 +379,7 @@ theorem foldArg_sim (te : C.TyEnv) (sp sc : Store) (hrel : Rel te sp sc) (e : Ex
     left; exact ⟨_, rfl, rfl⟩
   | none =>
     rcases expr_sim te sp sc hrel e v hwt hpy with h | h
-    · left; exact ⟨_, h, conv_toInt _ _ (fun ht => bool_val te sp sc hrel e v hwt ht hpy)⟩
+    · left; exact ⟨_, h, conv_toInt _ _ (typed_val te sp sc hrel e v hwt hpy)⟩
     · right; exact h
 
 theorem foldArg_vars (e : Expr) : ∀ x ∈ (foldArg e).vars, x ∈ e.vars := by
